@@ -337,8 +337,9 @@ theorem generated_requeue_eq (q : Q) (b : Bytes) :
   cases token <;> cases locked <;>
     simp [Seq.lock, Seq.unlock, Seq.republish, Seq.recvTok, Seq.sendTok, bind, Except.bind, Except.map, pure, Except.pure]
 
-/-- the translated body of `(*Queue).Dequeue` (early `nil` on published depth 0; `q.queue[0]` and
-`q.queue[1:]` with their bounds tests = the `panic` fault) is `Seq.dequeue`, for every state -/
+/-- the translated body of `(*Queue).Dequeue` (early `nil` on published depth 0; `nil` again when the
+slice turns out empty under the lock; `q.queue[0]` and `q.queue[1:]` with their bounds tests) is
+`Seq.dequeue`, for every state -/
 theorem generated_dequeue_eq (q : Q) :
     Gen.Bodies.QueueSeq.dequeue q.queue q.depth q.token q.locked
       = (Seq.dequeue q).map (fun r => (r.1, r.2.queue, r.2.depth, r.2.token, r.2.locked)) := by
@@ -349,8 +350,11 @@ theorem generated_dequeue_eq (q : Q) :
   | some d =>
     by_cases hd : d = 0
     · simp [hd, Seq.recvTok, Seq.sendTok, bind, Except.bind, Except.map, pure, Except.pure]
-    · cases locked <;> cases queue <;>
-        simp [hd, Seq.lock, Seq.unlock, Seq.republish, Seq.recvTok, Seq.sendTok, bind, Except.bind, Except.map,
+    · have hl0 : Go.len ([] : List Bytes) = 0 := rfl
+      have hl1 : ∀ (x : Bytes) (xs : List Bytes), ¬ Go.len (x :: xs) = 0 := by
+        intro x xs h; simp [Go.len] at h; omega
+      cases locked <;> cases queue <;>
+        simp [hd, hl0, hl1, Seq.lock, Seq.unlock, Seq.republish, Seq.recvTok, Seq.sendTok, bind, Except.bind, Except.map,
           pure, Except.pure, Go.idxOK_zero_nil, Go.idxOK_zero_cons, Go.sliceOK_one_cons, Go.at_zero_cons,
           Go.slice_one_cons]
 
